@@ -5,6 +5,7 @@ import (
 	"fmt"
 	"io"
 	"math/rand"
+	"sort"
 	"strings"
 	"sync"
 	"sync/atomic"
@@ -20,6 +21,7 @@ import (
 //                arrives, waits for its start gate, waits for its finish gate, returns a*10
 //   sf(a)        an unqualified call: a*10          of(a)   the ONCE function: a*10
 //   imm(a)       registered as immediate
+//   ff(a, k)     an unqualified call that fails for a = k: a*10 otherwise
 //
 // One scenario at a time per process.
 
@@ -120,6 +122,12 @@ func init() {
 	genql.RegisterFunction("sf", func(q *genql.Query, cur genql.Map, fo *genql.FunctionOptions, args []any) (any, error) {
 		return float64(argInt(args[0]) * 10), nil
 	})
+	genql.RegisterFunction("ff", func(q *genql.Query, cur genql.Map, fo *genql.FunctionOptions, args []any) (any, error) {
+		if len(args) == 2 && argInt(args[0]) == argInt(args[1]) {
+			return nil, fmt.Errorf("ff: row %d fails", argInt(args[0]))
+		}
+		return float64(argInt(args[0]) * 10), nil
+	})
 	genql.RegisterFunction("of", func(q *genql.Query, cur genql.Map, fo *genql.FunctionOptions, args []any) (any, error) {
 		if r := cur14.Load(); r != nil {
 			r.mu.Lock()
@@ -143,9 +151,18 @@ func init() {
 
 var runCounter int
 
-// placement wraps the select list into a nested query: "" (top level), "derived", "cte"
+// placement wraps the select list into a nested query: "" (top level), "derived", "cte", and a derived
+// table as the left / right side of a join with the table u (k = 1..n); "limit0" / "offsetall" cut the window to nothing
 func placed(inner, placement string) string {
 	switch placement {
+	case "limit0":
+		return inner + " LIMIT 0"
+	case "offsetall":
+		return inner + " LIMIT 5 OFFSET 7"
+	case "joinleft":
+		return "SELECT * FROM (" + inner + ") x JOIN u y ON x.m = y.k"
+	case "joinright":
+		return "SELECT * FROM u y JOIN (" + inner + ") x ON y.k = x.m"
 	case "derived":
 		return "SELECT * FROM (" + inner + ") x"
 	case "cte":
@@ -155,17 +172,42 @@ func placed(inner, placement string) string {
 }
 
 func placedWant(rows []any, placement string) []any {
-	if placement != "derived" {
-		return rows
-	}
 	out := []any{}
-	for _, r := range rows {
-		out = append(out, map[string]any{"x": r})
+	switch placement {
+	case "limit0", "offsetall":
+	case "derived":
+		for _, r := range rows {
+			out = append(out, map[string]any{"x": r})
+		}
+	case "joinleft", "joinright":
+		for _, r := range rows {
+			out = append(out, map[string]any{"x": r, "y": map[string]any{"k": r.(map[string]any)["m"]}})
+		}
+	default:
+		return rows
 	}
 	return out
 }
 
-func asyncSQL(items []string, run int) string {
+// join output order is not part of the claim: rows are put in the order of x.m
+func byXM(rows []any) []any {
+	out := append([]any{}, rows...)
+	key := func(r any) float64 {
+		if m, ok := r.(map[string]any); ok {
+			if x, ok := m["x"].(map[string]any); ok {
+				f, _ := asFloat(x["m"])
+				return f
+			}
+		}
+		return -1
+	}
+	sort.SliceStable(out, func(i, j int) bool { return key(out[i]) < key(out[j]) })
+	return out
+}
+
+func asyncSQL(items []string, run int) string { return asyncSQLf(items, run, 0) }
+
+func asyncSQLf(items []string, run, failrow int) string {
 	parts := []string{"mark(a) AS m"}
 	for i, k := range items {
 		n := i + 1
@@ -174,6 +216,8 @@ func asyncSQL(items []string, run int) string {
 			parts = append(parts, fmt.Sprintf("a * 10 AS c%d", n))
 		case "sync":
 			parts = append(parts, fmt.Sprintf("sf(a) AS c%d", n))
+		case "fail":
+			parts = append(parts, fmt.Sprintf("ff(a, %d) AS c%d", failrow, n))
 		case "async":
 			parts = append(parts, fmt.Sprintf("ASYNC.af(a, %d, %d) AS c%d", n, run, n))
 		case "spinasync":
@@ -190,11 +234,12 @@ func asyncSQL(items []string, run int) string {
 }
 
 func asyncDoc(nrows int) map[string]any {
-	rows := []any{}
+	rows, u := []any{}, []any{}
 	for i := 1; i <= nrows; i++ {
 		rows = append(rows, map[string]any{"a": float64(i)})
+		u = append(u, map[string]any{"k": float64(i)})
 	}
-	return map[string]any{"t": rows}
+	return map[string]any{"t": rows, "u": u}
 }
 
 // expected output rows per Async.tla at Return
@@ -205,7 +250,7 @@ func asyncWant(items []string, nrows int) []any {
 		for i, k := range items {
 			key := fmt.Sprintf("c%d", i+1)
 			switch k {
-			case "col", "sync", "async":
+			case "col", "sync", "async", "fail":
 				row[key] = float64(r * 10)
 			case "once":
 				row[key] = float64(10)
@@ -235,10 +280,31 @@ type execResult struct {
 	pan  any
 }
 
-func checkAsyncOutcome(r *asyncRun, items []string, nrows int, res execResult, sql string, sig []string, placement string) *Verdict {
+func checkAsyncOutcome(r *asyncRun, items []string, nrows int, res execResult, sql string, sig []string, placement string, failrow int) *Verdict {
 	if res.pan != nil {
 		v := fail("panic", sql, sig, "panic escaped the API: %v", res.pan)
 		return &v
+	}
+	if failrow > 0 {
+		// the query fails at row failrow: every call it got to has completed, none ran twice
+		if res.err == nil {
+			v := fail("noerror", sql, sig, "the failing call of row %d did not fail the query: %s", failrow, Canon(any(res.rows)))
+			return &v
+		}
+		r.mu.Lock()
+		defer r.mu.Unlock()
+		for c, n := range r.inv {
+			k := items[c.item-1]
+			if n > 1 {
+				v := fail("invocations", sql, sig, "%s call of row %d was invoked %d times", k, c.row, n)
+				return &v
+			}
+			if (k == "async" || k == "spinasync") && !r.finished[c] {
+				v := fail("incomplete", sql, sig, "Exec returned its error while the %s call of row %d had not completed", k, c.row)
+				return &v
+			}
+		}
+		return nil
 	}
 	if res.err != nil {
 		v := fail("error", sql, sig, "Exec failed: %v", res.err)
@@ -272,6 +338,9 @@ func checkAsyncOutcome(r *asyncRun, items []string, nrows int, res execResult, s
 		}
 	}
 	want := placedWant(asyncWant(items, nrows), placement)
+	if strings.HasPrefix(placement, "join") {
+		res.rows = byXM(res.rows)
+	}
 	if !Equal(any(res.rows), any(want)) {
 		v := fail("result", sql, sig, "rows when Exec returned: want %s got %s", Canon(any(want)), Canon(any(res.rows)))
 		return &v
@@ -281,9 +350,15 @@ func checkAsyncOutcome(r *asyncRun, items []string, nrows int, res execResult, s
 
 // checkC14: force one exported schedule of Async.tla onto the real engine.
 func checkC14(c Node) Verdict {
+	if c["hist"] != nil {
+		return checkRegistry(c)
+	}
 	placements := []string{""}
 	if n, _ := c["nested"].(bool); n {
-		placements = []string{"derived", "cte"}
+		placements = []string{"derived", "cte", "joinleft", "joinright"}
+	}
+	if c["window"] == "empty" {
+		placements = []string{"limit0", "offsetall"}
 	}
 	var v Verdict
 	for _, p := range placements {
@@ -299,9 +374,13 @@ func checkC14(c Node) Verdict {
 func checkC14Placed(c Node, placement string) Verdict {
 	items := strs(c["items"])
 	nrows := int(num(c["nrows"]))
+	failrow := int(num(c["failrow"]))
 	runCounter++
-	sql := placed(asyncSQL(items, runCounter), placement)
+	sql := placed(asyncSQLf(items, runCounter, failrow), placement)
 	sig := []string{"schedule", "placement:" + placement}
+	if failrow > 0 {
+		sig = append(sig, "failing")
+	}
 	for _, k := range items {
 		sig = append(sig, "kind:"+k)
 	}
@@ -359,13 +438,17 @@ func checkC14Placed(c Node, placement string) Verdict {
 		}
 	}
 	defer cleanup()
+	// the counted calls this schedule gets to (a failing row cuts the rest off)
+	toFinish := map[callID]bool{}
+	for _, e := range seq(c["sched"]) {
+		if e := e.(Node); e["ev"] == "finish" {
+			toFinish[callID{int(num(e["r"])), int(num(e["i"]))}] = true
+		}
+	}
 	pendingCounted := func() bool {
-		for row := 1; row <= nrows; row++ {
-			for i := range items {
-				cid := callID{row, i + 1}
-				if counted(cid) && !released[cid] {
-					return true
-				}
+		for cid := range toFinish {
+			if counted(cid) && !released[cid] {
+				return true
 			}
 		}
 		return false
@@ -382,7 +465,7 @@ func checkC14Placed(c Node, placement string) Verdict {
 				return fail("stuck", sql, sig, "the main goroutine never reached row %d", row)
 			}
 			close(r.mch(r.markG, row))
-			if row < nrows && !waitCh(r.mch(r.markAt, row+1)) {
+			if row < nrows && row != failrow && !waitCh(r.mch(r.markAt, row+1)) {
 				return fail("stuck", sql, sig, "the main goroutine never reached row %d after row %d", row+1, row)
 			}
 		case "start":
@@ -412,7 +495,7 @@ func checkC14Placed(c Node, placement string) Verdict {
 		case "return":
 			select {
 			case res := <-done:
-				if bad := checkAsyncOutcome(r, items, nrows, res, sql, sig, placement); bad != nil {
+				if bad := checkAsyncOutcome(r, items, nrows, res, sql, sig, placement, failrow); bad != nil {
 					return *bad
 				}
 			case <-time.After(stepTimeout):
@@ -439,15 +522,24 @@ func init() {
 	Replay["C14"] = checkC14
 	TraceGen["C14"] = func(seed int64, n int, tier string, w io.Writer) TraceInfo {
 		g := rand.New(rand.NewSource(seed))
-		configs := [][]string{{"col", "async"}, {"async", "spinasync", "sync"}, {"once", "async", "spin"}, {"async", "col", "async"}, {"spinasync", "async", "async", "once"}}
+		configs := [][]string{{"col", "async"}, {"async", "spinasync", "sync"}, {"once", "async", "spin"}, {"async", "col", "async"}, {"spinasync", "async", "async", "once"},
+			{"async", "fail", "spinasync"}, {"spinasync", "async", "fail"}}
 		items := configs[int(seed)%len(configs)]
 		nrows := 2 + int(seed/7)%5
+		failrow := 0
+		if int(seed)%len(configs) >= 5 {
+			failrow = 1 + int(seed/3)%nrows
+		}
+		window, empty := "", "FALSE"
+		if failrow == 0 && int(seed/2)%3 == 0 {
+			window, empty = []string{" LIMIT 0", " LIMIT 3 OFFSET 9"}[int(seed)%2], "TRUE"
+		}
 		enc := json.NewEncoder(w)
 		info := TraceInfo{}
 		sql := ""
 		for k := 0; k < n; k++ {
 			runCounter++
-			sql = asyncSQL(items, runCounter)
+			sql = asyncSQLf(items, runCounter, failrow) + window
 			r := newAsyncRun(false)
 			r.id = runCounter
 			mode := g.Intn(3)
@@ -458,6 +550,8 @@ func init() {
 				case 1: // skewed: early rows are slow
 					return time.Duration((nrows-c.row)*150) * time.Microsecond
 				}
+				r.mu.Lock() // g is not safe for concurrent use
+				defer r.mu.Unlock()
 				return time.Duration(g.Intn(400)) * time.Microsecond
 			}
 			cur14.Store(r)
@@ -489,7 +583,7 @@ func init() {
 			time.Sleep(500 * time.Microsecond)
 		}
 		info.Samples = []string{sql}
-		info.Cfg = fmt.Sprintf("SPECIFICATION TraceSpec\nCONSTANTS\n  NRows = %d\n  Items <- %s\n  Dev_AddInGoroutine = FALSE\n  Nested = FALSE\n  Dev_NoChain = FALSE\nPOSTCONDITION Summary\nCHECK_DEADLOCK FALSE\n", nrows, map[int]string{0: "Items0", 1: "Items1", 2: "Items2", 3: "Items3", 4: "Items4"}[int(seed)%len(configs)])
+		info.Cfg = fmt.Sprintf("SPECIFICATION TraceSpec\nCONSTANTS\n  NRows = %d\n  Items <- %s\n  Dev_AddInGoroutine = FALSE\n  Nested = FALSE\n  Dev_NoChain = FALSE\n  FailRow = %d\n  Dev_NoWaitOnError = FALSE\n  EmptyWindow = %s\n  Dev_NoWaitWhenEmpty = FALSE\nPOSTCONDITION Summary\nCHECK_DEADLOCK FALSE\n", nrows, fmt.Sprintf("Items%d", int(seed)%len(configs)), failrow, empty)
 		return info
 	}
 }
@@ -513,4 +607,114 @@ func init() {
 			}
 		}
 	}
+}
+
+// ---- the function registry (Registry.tla): every registration history, replayed ------------------
+
+var regCounter int
+
+// checkRegistry replays one exported history of Registry.tla on the process-wide registry (names made
+// unique per case) and, after every registration, asks the real engine what the specification answers.
+func checkRegistry(c Node) Verdict {
+	regCounter++
+	uniq := func(n string) string { return fmt.Sprintf("rg%d_%s", regCounter, n) }
+	counters := map[string]*atomic.Int64{} // per name: SPIN calls of another name may still be running
+	v := Verdict{OK: true, Sig: []string{"registry"}, Nontrivial: true}
+	doc := func() map[string]any { return map[string]any{"t": []any{map[string]any{"a": float64(1)}, map[string]any{"a": float64(2)}}} }
+	for step, e := range seq(c["hist"]) {
+		e := e.(Node)
+		id := int(num(e["id"]))
+		name := uniq(e["name"].(string))
+		if counters[name] == nil {
+			counters[name] = new(atomic.Int64)
+		}
+		invoked := counters[name]
+		fn := func(q *genql.Query, cur genql.Map, fo *genql.FunctionOptions, args []any) (any, error) {
+			invoked.Add(1)
+			return float64(id*100 + argInt(args[0])), nil
+		}
+		if e["op"] == "imm" {
+			genql.RegisterImmediateFunction(name, fn)
+			v.Sig = append(v.Sig, "reg:imm")
+		} else {
+			genql.RegisterFunction(name, fn)
+			v.Sig = append(v.Sig, "reg:plain")
+		}
+		after := e["after"].(Node)
+		for n, a := range after {
+			a := a.(Node)
+			status := a["status"].(string)
+			if status == "unknown" {
+				continue
+			}
+			impl := int(num(a["impl"]))
+			want := []any{map[string]any{"v": float64(impl*100 + 1)}, map[string]any{"v": float64(impl*100 + 2)}}
+			plain := fmt.Sprintf("SELECT %s(a) AS v FROM t", uniq(n))
+			base := Run(doc(), plain, false)
+			v.Execs++
+			if base.Panic != nil {
+				return fail("panic", plain, v.Sig, "step %d: panic escaped the API: %v", step+1, base.Panic)
+			}
+			if base.Err != nil || !Equal(any(base.Rows), any(want)) {
+				// which registration provides the implementation is not part of C14
+				v.Drift = fmt.Sprintf("step %d: %s: want the latest implementation's %s got %s err=%v", step+1, plain, Canon(any(want)), Canon(any(base.Rows)), base.Err)
+				continue
+			}
+			invoked := counters[uniq(n)]
+			for _, qual := range []string{"ASYNC", "SPIN", "SPINASYNC"} {
+				sql := fmt.Sprintf("SELECT %s.%s(a) AS v FROM t", qual, uniq(n))
+				before := invoked.Load()
+				out := Run(doc(), sql, false)
+				v.Execs++
+				sig := append(append([]string{}, v.Sig...), "qual:"+strings.ToLower(qual), "status:"+status)
+				if out.Panic != nil {
+					return fail("panic", sql, sig, "step %d: panic escaped the API: %v", step+1, out.Panic)
+				}
+				switch status {
+				case "rejects":
+					if out.Err == nil {
+						return fail("noerror", sql, sig, "step %d of %s: a function whose latest registration is immediate was accepted under %s: %s", step+1, histText(c, step+1), qual, Canon(any(out.Rows)))
+					}
+					time.Sleep(200 * time.Microsecond)
+					if invoked.Load() != before {
+						return fail("invocations", sql, sig, "step %d of %s: the rejected %s call ran the function", step+1, histText(c, step+1), qual)
+					}
+				case "sticky":
+					if out.Err == nil {
+						v.Drift = fmt.Sprintf("step %d: %s accepted although the name was once registered as immediate (the code keeps it on the list)", step+1, sql)
+					}
+				case "runs":
+					if out.Err != nil {
+						return fail("error", sql, sig, "step %d of %s: a function never registered as immediate was rejected under %s: %v", step+1, histText(c, step+1), qual, out.Err)
+					}
+					if qual == "ASYNC" && !Equal(any(out.Rows), any(want)) {
+						return fail("result", sql, sig, "step %d of %s: ASYNC value differs from the unqualified call: want %s got %s", step+1, histText(c, step+1), Canon(any(want)), Canon(any(out.Rows)))
+					}
+					if qual != "ASYNC" && !Equal(any(out.Rows), any([]any{map[string]any{}, map[string]any{}})) {
+						return fail("result", sql, sig, "step %d of %s: %s added a column: %s", step+1, histText(c, step+1), qual, Canon(any(out.Rows)))
+					}
+					// once per row (a SPIN call may still be on its way)
+					for deadline := time.Now().Add(stepTimeout); qual == "SPIN" && invoked.Load() < before+2 && time.Now().Before(deadline); {
+						time.Sleep(50 * time.Microsecond)
+					}
+					if got := invoked.Load() - before; got != 2 {
+						return fail("invocations", sql, sig, "step %d of %s: %s ran the function %d times for 2 rows", step+1, histText(c, step+1), qual, got)
+					}
+				}
+			}
+		}
+	}
+	return v
+}
+
+func histText(c Node, upto int) string {
+	parts := []string{}
+	for i, e := range seq(c["hist"]) {
+		if i >= upto {
+			break
+		}
+		e := e.(Node)
+		parts = append(parts, fmt.Sprintf("%s(%s)", e["op"], e["name"]))
+	}
+	return strings.Join(parts, " ")
 }
